@@ -369,8 +369,11 @@ c07_object_harness!(c07_object_cleared_short_m5, c07_object_cleared, 64, 32, 16,
 c07_object_harness!(c07_object_cleared_short_m8, c07_object_cleared, 64, 32, 16, 8, 8);
 c07_object_harness!(c07_object_cleared_long_m8, c07_object_cleared, 64, 64, 16, 16, 8);
 
-/// Two dual hashes are equal (and order as equal) iff their raw hashes are equal;
-/// different normalized parts order as the normalized parts do; total order otherwise.
+/// Eq / Ord of dual hashes on ARBITRARY reverse-normalization bytes and arbitrary valid
+/// normalized parts: equality is field equality, the order is total and antisymmetric,
+/// 'Equal' coincides with ==, and different normalized parts order exactly as those parts do.
+/// (That equal raw hashes give equal dual hashes whichever route built them is the
+/// canonical-form result of C07.)
 fn c16_dual_pair<const S1: usize, const S2: usize, const C1: usize, const C2: usize>(m: usize)
 where
     BlockHashSize<S1>: ConstrainedBlockHashSize,
@@ -380,35 +383,44 @@ where
     ReconstructionBlockSize<S2, C2>: ConstrainedReconstructionBlockSize,
 {
     use core::cmp::Ordering;
-    let ra = any_hash::<S1, S2, false>(m, m);
-    let rb = any_hash::<S1, S2, false>(m, m);
-    let a = <FuzzyHashDualData<S1, S2, C1, C2>>::from_raw_form(&ra);
-    let b = <FuzzyHashDualData<S1, S2, C1, C2>>::from_raw_form(&rb);
-    assert!((a == b) == (ra == rb));
+    let a = FuzzyHashDualData::<S1, S2, C1, C2> { rle_block1: kani::any(), rle_block2: kani::any(), norm_hash: any_hash::<S1, S2, true>(m, m) };
+    let b = FuzzyHashDualData::<S1, S2, C1, C2> { rle_block1: kani::any(), rle_block2: kani::any(), norm_hash: any_hash::<S1, S2, true>(m, m) };
     assert!((a == b) == same_dual(&a, &b));
     let o = a.cmp(&b);
     assert!((o == Ordering::Equal) == (a == b));
     let rev = b.cmp(&a);
     assert!((o == Ordering::Less) == (rev == Ordering::Greater) && (o == Ordering::Greater) == (rev == Ordering::Less));
     assert!(a.partial_cmp(&b) == Some(o));
-    let (na, nb) = (ra.normalize(), rb.normalize());
-    if na != nb {
-        assert!(o == na.cmp(&nb));
+    if a.norm_hash != b.norm_hash {
+        assert!(o == a.norm_hash.cmp(&b.norm_hash));
     }
-    kani::cover!(a == b && !ra.is_normalized());
-    kani::cover!(a != b && na == nb);
-    kani::cover!(na != nb);
+    kani::cover!(a == b && a.rle_block1[0] != 0);
+    kani::cover!(a != b && a.norm_hash == b.norm_hash);
+    kani::cover!(a.norm_hash != b.norm_hash && o == Ordering::Greater);
 }
 
-#[kani::proof]
-#[kani::unwind(66)]
-fn c16_dual_pair_short_m5() { c16_dual_pair::<64, 32, 16, 8>(5) }
 #[kani::proof]
 #[kani::unwind(66)]
 fn c16_dual_pair_short_m8() { c16_dual_pair::<64, 32, 16, 8>(8) }
 #[kani::proof]
 #[kani::unwind(66)]
 fn c16_dual_pair_long_m8() { c16_dual_pair::<64, 64, 16, 16>(8) }
+#[kani::proof]
+#[kani::unwind(66)]
+fn c16_dual_pair_long_m4_40() { c16_dual_pair::<64, 64, 16, 16>(40) }
+
+/// Route independence: dual hashes built from raw hashes are equal iff the raw hashes are.
+#[kani::proof]
+#[kani::unwind(66)]
+fn c16_dual_equal_iff_raw_equal_m5() {
+    let ra = any_hash::<64, 32, false>(5, 5);
+    let rb = any_hash::<64, 32, false>(5, 5);
+    let a = Short::from_raw_form(&ra);
+    let b = Short::from_raw_form(&rb);
+    assert!((a == b) == (ra == rb));
+    kani::cover!(a == b && !ra.is_normalized());
+    kani::cover!(a != b && a.norm_hash == b.norm_hash);
+}
 
 /// Hash trait: equal dual hashes feed identical data to the hasher.
 struct RecHasher {
